@@ -2,7 +2,7 @@
    every client has seen is NOT always unobservable.  A tombstone acts as a stopper
    for the skip rule of later inserts that are concurrent with its right
    neighbours; once it is purged such an insert lands further right. *)
-From YV Require Import Base.Ticket Crdt.RGAList.
+From YV Require Import Base.Ticket Crdt.TextRGA Crdt.RGAList.
 Open Scope Z_scope.
 
 Definition tk (l : Z) (a : N) := mkT l a 0%N.
@@ -54,3 +54,23 @@ Theorem losing_move_position_carries_winner :
   (* had the position been purged when everybody had seen L only: *)
   obind mv_WL (fun g => mv_next (purge_slot g mv_L)) = None.
 Proof. repeat split; vm_compute; reflexivity. Qed.
+
+(* ------------------------------------------------------------------ *)
+(* finding P4 on the text model (the same skip rule, rga_tree_split.go findNodeWithSplit):
+   "abc" typed as three runs by actor 1; X types "x" after "b" (lamport 10); A deletes "b"
+   (lamport 5); M, who saw the deletion but not "x", types "m" after "a" (lamport 6). *)
+Definition tx_a := tk 1 1. Definition tx_b := tk 2 1. Definition tx_c := tk 3 1.
+Definition tx_base : option (list tch) :=
+  obind (edit PHead PHead [97%N] tx_a None []) (fun l =>
+  obind (edit (PAfter tx_a 0) (PAfter tx_a 0) [98%N] tx_b None l) (fun l =>
+  edit (PAfter tx_b 0) (PAfter tx_b 0) [99%N] tx_c None l)).
+Definition tx_X l := edit (PAfter tx_b 0) (PAfter tx_b 0) [120%N] (tk 10 9) (Some [(1%N, 3); (9%N, 10)]) l.
+Definition tx_A l := edit (PAfter tx_a 0) (PAfter tx_b 0) [] (tk 5 7) (Some [(1%N, 3); (7%N, 5)]) l.
+Definition tx_M l := edit (PAfter tx_a 0) (PAfter tx_a 0) [109%N] (tk 6 8) (Some [(1%N, 3); (7%N, 5); (8%N, 6)]) l.
+Definition tx_shared := obind (obind tx_base tx_X) tx_A.
+Definition tx_without_purge := option_map TextRGA.visible (obind tx_shared tx_M).
+Definition tx_with_purge := option_map TextRGA.visible (obind tx_shared (fun l => tx_M (purge_run tx_b 0 1 l))).
+
+Theorem text_purged_stopper_changes_order :
+  tx_without_purge = Some [97; 109; 120; 99]%N /\ tx_with_purge = Some [97; 120; 109; 99]%N.
+Proof. split; vm_compute; reflexivity. Qed.
